@@ -148,6 +148,19 @@ def ensure(verbose=False, repo=REPO):
     env['VERIF_SCRATCH'] = os.path.join(base, 'scratch')
     os.makedirs(env['VERIF_SCRATCH'], exist_ok=True)
     _prune_scratch(env['VERIF_SCRATCH'])
+    # generated modules nobody has rebuilt for two days
+    for root, dirs, files in os.walk(os.path.join(home, '.pysph', 'source')):
+        if root.count(os.sep) - home.count(os.sep) == 3:
+            _prune_scratch(root, age=48 * 3600)
+            now = time.time()
+            for f in files:
+                p = os.path.join(root, f)
+                try:
+                    if now - os.path.getmtime(p) > 48 * 3600:
+                        os.remove(p)
+                except OSError:
+                    pass
+            dirs[:] = []
     return env
 
 
